@@ -187,3 +187,4 @@ def oracle(line, out, expect):
     if expect is not None and _nk(out) != _nk(expect):
         return "expected `%s` (reference framing), implementation returned `%s`" % (expect, out)
     return None
+from ties import of as _tie_of; TIE_LAYOUTS, TIE_PINS, TIE_ENUMS = _tie_of("C13")   # static-tie lemmas (coq/Gen/Tie) this property depends on
